@@ -9,7 +9,7 @@ for b in re.split(r'(?=^RESULT )', log, flags=re.M):
     sd, c, dw, do, tests, rc = m.group(1), m.group(2), int(m.group(3)), int(m.group(4)), m.group(5), int(m.group(6))
     fi = re.search(r'failing input: (.*)', b) or re.search(r'correspondence broken at: (.*)', b) or re.search(r'broken obligation: (.*)', b)
     confirmed = dw != 0 and do == 0 and ('passed' in tests and 'failed' not in tests)
-    k = int(sd[-1]) + (3 if 'seed2_' in sd else 0) + (6 if 'seed3_' in sd else 0)
+    k = int(sd[-1]) + (3 if 'seed2_' in sd else 0) + (6 if "seed3_" in sd else 0) + (9 if "seed4_" in sd else 0)
     dst = '/verif/seeded/%s-%s' % (c, k)
     print(dst, 'confirmed' if confirmed else 'NOT-CONFIRMED', 'caught' if rc == 1 else 'MISSED rc=%d' % rc, fi.group(1)[:100] if fi else None)
     if not confirmed:
